@@ -30,7 +30,7 @@ def _strip_either(t):
 
 
 def _filter_table(ctx, fn, src_name):
-    b = ctx.fbody(name=fn, self_adt=IS_, trait="")
+    b = ctx.fibody(name=fn, self_adt=IS_, trait="")
     tab = {}
     for g, term, bi in b.expanded_cases(0):
         names = common.variant_of(g, "filter")
@@ -75,7 +75,7 @@ def r1(ctx):
     ctx.floor("filter arms", n, 8)
     # accessors built on the filter
     for fn, want in (("instruments", "InstrumentStates::filtered(self, filter)"), ("orders", None), ("instruments_mut", "InstrumentStates::filtered_mut(self, filter)")):
-        fb = ctx.fbody(name=fn, self_adt=IS_, trait="")
+        fb = ctx.fibody(name=fn, self_adt=IS_, trait="")
         rt = fb.return_term()
         if want:
             ctx.check("InstrumentStates::" + fn, render(rt) == want, "is the filter applied to the given filter", got=render(rt), key="accessor")
@@ -90,7 +90,7 @@ def r1(ctx):
 def r2(ctx):
     O = "barter_execution::order::Order"
     ds = [d for d in ctx.find(name="to_request_cancel", self_adt=O, allow_many=True)]
-    b = ctx.body(ds[0])
+    b = ctx.ibody(ds[0])
     cases = common.expand_phi_cases(b, b.expanded_cases(0))
     tab = {}
     for g, term, bi in cases:
@@ -110,32 +110,30 @@ def r2(ctx):
 
 def r3(ctx):
     CO = "barter::engine::action::cancel_orders::CancelOrders"
-    b = ctx.fbody(name="cancel_orders", self_adt=ENG, trait=CO)
+    b = ctx.fibody(name="cancel_orders", self_adt=ENG, trait=CO)
     sends = [(bi, t, tm) for bi, t, tm in b.real_calls() if mir.short(tm[1]) == "Engine::send_requests"]
     ok = len(sends) == 1
     ctx.check("Engine::cancel_orders", ok, "one send", got=len(sends), key="one-send")
     if ok:
         arg = sends[0][2][2][1]
-        ok = arg[0] == "call" and arg[1].endswith("Iterator::flat_map") and render(arg[2][0]) == "InstrumentStates::orders(self.state.instruments, filter)"
-        inner = None
-        if ok:
-            cb, _ = mir.closure_body(ctx.facts, arg[2][1])
-            inner = cb.return_term()
-            ok = inner[0] == "call" and inner[1].endswith("Iterator::filter_map") and inner[2][1][0] == "fnitem" and \
-                mir.short(inner[2][1][1]) == "Order::to_request_cancel" and render(inner[2][0]) in ("Orders::orders($1)", "HashMap::values($1.0)")
+        src, stages, sink = common.pipeline(ctx, arg)
+        inner = (render(src), stages, sink)
+        ok = render(src) == "InstrumentStates::orders(self.state.instruments, filter)" and sink is None and \
+            stages in ([("flat", "Orders::orders($x)"), ("filter_map", "Order::to_request_cancel($x)")],
+                       [("flat", "HashMap::values($x.0)"), ("filter_map", "Order::to_request_cancel($x)")])
         ctx.check("Engine::cancel_orders", ok,
                   "requests = to_request_cancel of every tracked order of every instrument matching the command's own filter",
-                  sites=[sends[0][1]["sp"]], got=(render(arg)[:200], render(inner)[:200] if inner else None), key="scope")
+                  sites=[sends[0][1]["sp"]], got=(render(arg)[:200], str(inner)[:300]), key="scope")
         ctx.check("Engine::cancel_orders", render(b.return_term()) == render(sends[0][2]) or b.return_term() == sends[0][2],
                   "reports the send's own output", got=render(b.return_term())[:120], key="output")
-    ob = ctx.fbody(name="orders", self_adt=common.ORDERS, trait=common.OM)
+    ob = ctx.fibody(name="orders", self_adt=common.ORDERS, trait=common.OM)
     ctx.check("Orders::orders", render(ob.return_term()) == "HashMap::values(self.0)", "iterates every tracked order", got=render(ob.return_term()), key="all")
     common_send.r3_sent_only(ctx, 1, 1, only_fns={"Engine::cancel_orders"})
 
 
 def r4(ctx):
     f = ctx.find(path="barter::strategy::close_positions::close_open_positions_with_market_orders")
-    b = ctx.body(f)
+    b = ctx.ibody(f)
     rt = b.return_term()
     ok = rt[0] == "agg" and rt[1] == "tuple" and rt[3][0][0] == "call" and rt[3][0][1].endswith("iter::empty")
     ctx.check("close_open_positions_with_market_orders", ok, "the default strategy issues no cancels", got=render(rt)[:200], key="no-cancels")
@@ -164,7 +162,7 @@ def r4(ctx):
     ctx.check("close_open_positions_with_market_orders",
               atoms_ == {"Try::branch($1.position.current) is Continue", "Try::branch(InstrumentDataState::price($1.data)) is Continue"},
               "an order is produced exactly when the instrument holds a position and has a price", got=sorted(atoms_), key="iff")
-    bb = ctx.body(ctx.find(path="barter::strategy::close_positions::build_ioc_market_order_to_close_position"))
+    bb = ctx.ibody(ctx.find(path="barter::strategy::close_positions::build_ioc_market_order_to_close_position"))
     cases = common.expand_phi_cases(bb, bb.expanded_cases(0))
     tab = {}
     for g2, t2, _ in cases:
@@ -186,7 +184,7 @@ def r4(ctx):
     ds = [d for d, bi, sp in common.lib_callers(ctx.facts, f)]
     ctx.check("DefaultStrategy::close_positions_requests", len(ds) >= 1, "default strategy uses the naive closer", got=ds, key="caller")
     for d in ds:
-        cbody = ctx.body(d)
+        cbody = ctx.ibody(d)
         for bi, t_, tm in cbody.real_calls():
             if tm[1] == f:
                 ctx.check("DefaultStrategy::close_positions_requests", [render(a) for a in tm[2][1:3]] == ["state", "filter"],
@@ -194,7 +192,7 @@ def r4(ctx):
 
 
 def r5(ctx):
-    b = ctx.fbody(name="action", self_adt=ENG, trait="")
+    b = ctx.fibody(name="action", self_adt=ENG, trait="")
     calls = b.real_calls()
     want = {"CancelOrders": ("Engine::cancel_orders", "command.as:CancelOrders.0", "ActionOutput::CancelOrders"),
             "ClosePositions": ("Engine::close_positions", "command.as:ClosePositions.0", "ActionOutput::ClosePositions"),
@@ -218,14 +216,14 @@ def r5(ctx):
 def r6(ctx):
     for name, tr in (("cancel_orders", "barter::engine::action::cancel_orders::CancelOrders"),
                      ("close_positions", "barter::engine::action::close_positions::ClosePositions")):
-        b = ctx.fbody(name=name, self_adt=ENG, trait=tr)
+        b = ctx.fibody(name=name, self_adt=ENG, trait=tr)
         st = b.stores()
         mut = sorted(set(tm[1].rsplit("::", 1)[-1] for bi, t, tm in b.real_calls() if common.mutates_self(b, t, tm)))
         ctx.check("Engine::" + name, not st and set(mut) <= {"record_in_flight_cancels", "record_in_flight_opens"},
                   "the action changes engine state only by marking sent requests in flight",
                   got={"stores": [render(s[2]) for s in st], "mutating_calls": mut}, key="only-in-flight")
     CP = "barter::engine::action::close_positions::ClosePositions"
-    b = ctx.fbody(name="close_positions", self_adt=ENG, trait=CP)
+    b = ctx.fibody(name="close_positions", self_adt=ENG, trait=CP)
     gen = [tm for bi, t, tm in b.real_calls() if tm[1].endswith("ClosePositionsStrategy::close_positions_requests")]
     ok = len(gen) == 1 and [render(a) for a in gen[0][2]] == ["self.strategy", "self.state", "filter"]
     ctx.check("Engine::close_positions", ok, "requests come from the strategy applied to the engine state and the command's own filter",
